@@ -453,6 +453,20 @@ let run_stream id (lines : string list) =
       | ["pump1"; j] -> let (a, b) = take (int_of_string j) !pend1 in inq1 := !inq1 @ a; pend1 := b
       | ["pump2"; j] -> if not !down_dropped then (let (a, b) = take (int_of_string j) !pend2 in inq2 := !inq2 @ a; pend2 := b)
       | ["dropdown"] -> down_dropped := true; pend2 := []
+      | ["relaymode"; _] -> ()
+      | ["mirroruniq"] ->
+        let pn = Array.of_list (table_list !producer) in
+        let bad = ref 0 in
+        List.iter (fun (which, m) ->
+          let before = int_of_string (sn !m.size) in
+          Array.iteri (fun i nd ->
+            if i >= 2 && i < before then begin
+              let (s', t) = mk_node c !m nd.nv nd.nlo nd.nhi in
+              m := s';
+              if sn t <> string_of_int i then incr bad
+            end) pn;
+          if int_of_string (sn !m.size) <> before then bad := !bad + 1000 * which) [(1, relay); (2, receiver)];
+        emit id (qid ()) ("mirroruniq " ^ string_of_int !bad)
       | ["poll1"; t] ->
         let ((s, rest), f) = recv !relay true !inq1 (n_of_string t) in
         relay := s; inq1 := rest; sync_out relay sent_r pend2;
